@@ -213,8 +213,14 @@ static bool truth_of(const RCP<const Basic> &val, Truth &t)
             t.v[i] = a[i];
         return true;
     }
+    if (is_a<RealDouble>(*val) && std::isfinite(down_cast<const RealDouble &>(*val).i)) {
+        // a finite double is a rational number: never irrational, never transcendental
+        t.v[10] = 0;
+        t.v[14] = 0;
+        return true;
+    }
     if (is_a_Number(*val))
-        return false; // floating point: no exact verdict
+        return false; // other floating point values: no exact verdict
     // not a number after substitution (constants, unevaluated functions): numeric verdict on
     // the order properties only, with a margin
     try {
@@ -226,10 +232,14 @@ static bool truth_of(const RCP<const Basic> &val, Truth &t)
         bool clearly_nonreal = std::fabs(z.imag()) > 1e3 * tol;
         if (!realish && !clearly_nonreal)
             return false;
+        // numeric verdicts are only used against the order claims and against "real = true"
+        // (an intermediate overflow can make a singular expression look finite, so complex /
+        // finite claims are not judged numerically)
         if (clearly_nonreal) {
-            int a[17] = {0, 1, 0, 0, 0, 0, 0, 0, 1, 0, 0, 1, 0, -1, -1, 0, 0};
-            for (int i = 0; i < 17; i++)
-                t.v[i] = a[i];
+            t.v[0] = 0;
+            t.v[2] = t.v[3] = t.v[4] = t.v[5] = 0;
+            t.v[6] = 0;
+            t.v[7] = 0;
             return true;
         }
         double x = z.real();
@@ -242,9 +252,6 @@ static bool truth_of(const RCP<const Basic> &val, Truth &t)
         t.v[3] = !p;
         t.v[4] = p;
         t.v[5] = !p;
-        t.v[8] = 1;
-        t.v[11] = 1;
-        t.v[12] = 0;
         if (std::fabs(x - std::round(x)) > 1e-6)
             t.v[6] = 0, t.v[15] = 0, t.v[16] = 0;
         return true;
@@ -636,6 +643,23 @@ int main()
 {
     std::string line;
     while (std::getline(std::cin, line)) {
+        // a crash while the INPUT is being built (recipe evaluation: constructors outside the
+        // anchored code) is reported as such and skipped by the checks
+        std::vector<std::string> f = split_sep(line, "\t");
+        bool ok = verif::survives([&]() {
+            try {
+                Ctx c;
+                if (f.size() >= 3 && (f[0] == "Q" || f[0] == "R"))
+                    setup(c, f[1], f[2], f.size() > 3 ? f[3] : "-");
+                else if (f.size() >= 4 && f[0] == "K")
+                    setup(c, f[2], f[3], "-");
+            } catch (...) {
+            }
+        }, 60);
+        if (!ok) {
+            std::cout << "SETUP-CRASH\n";
+            continue;
+        }
         std::cout << verif::run_forked([&]() { return run_line(line); }, 120) << "\n";
     }
     return 0;
